@@ -926,7 +926,7 @@ impl PartialOrd for Node<'_, '_> {
 
 impl Ord for Node<'_, '_> {
     fn cmp(&self, other: &Self) -> Ordering {
-        (self.id.0, self.doc as *const _).cmp(&(other.id.0, other.doc as *const _))
+        (self.doc as *const _, self.id.0).cmp(&(other.doc as *const _, other.id.0))
     }
 }
 
